@@ -165,6 +165,7 @@ class IntWP:
         self.depth = 0
         self.consts = {}
         self.hints = None            # directory for the online queries of value_hint(), or None: no hints
+        self.cur_path = None
         self.hint_n = 0
 
     # ------------------------------------------------------------------ utilities
@@ -194,6 +195,13 @@ class IntWP:
     def wrap(self, term, ctype):
         lo, hi = rng(ctype)
         m = hi - lo + 1
+        if self.hints and self.cur_path is not None and ctype != '_Bool':
+            # solver-aided: a modular reduction that cannot happen on this path is dropped, after the range fact has been registered
+            # as an obligation of its own
+            fact = '(and (<= %s %s) (<= %s %s))' % (lit(lo), term, term, lit(hi))
+            if self.entailed(self.cur_path, fact, secs=5):
+                self.oblige('value-hint', self.cur_path, fact, 'conversion to %s does not wrap on this path (derived fact)' % ctype)
+                return term
         if ctype in UNSIGNED_INT:
             if ctype == '_Bool':
                 return '(b2i (not (= %s 0)))' % term
@@ -380,6 +388,13 @@ class IntWP:
                     return self.stmt(ch[2], fr, path)
                 return
             cnd = self.define('c', self.cond(ch[0], fr, self.guard(fr, path)), 'Bool')
+            cnd = self.decide_condition(cnd, self.guard(fr, path), fr.ft.cname)
+            if cnd == 'true':
+                return self.stmt(ch[1], fr, path)
+            if cnd == 'false':
+                if n.get('hasElse'):
+                    return self.stmt(ch[2], fr, path)
+                return
             saved = self.snapshot(fr)
             self.stmt(ch[1], fr, '(and %s %s)' % (path, cnd))
             then_state = self.snapshot(fr)
@@ -494,7 +509,11 @@ class IntWP:
         m = getattr(self, 'x_' + k, None)
         if m is None:
             raise Unsupported('expression ' + k)
-        return m(n, fr, path)
+        prev, self.cur_path = self.cur_path, path      # the path under which THIS node is evaluated (used by wrap(), hints on)
+        try:
+            return m(n, fr, path)
+        finally:
+            self.cur_path = prev
 
     def x_IntegerLiteral(self, n, fr, path):
         return n['value']
@@ -640,6 +659,11 @@ class IntWP:
     def x_ConditionalOperator(self, n, fr, path):
         c, a, b = kids(n)
         cnd = self.define('c', self.cond(c, fr, path), 'Bool')
+        cnd = self.decide_condition(cnd, path, fr.ft.cname)
+        if cnd == 'true':
+            return self.expr(a, fr, path)
+        if cnd == 'false':
+            return self.expr(b, fr, path)
         va = self.expr(a, fr, '(and %s %s)' % (path, cnd))
         vb = self.expr(b, fr, '(and %s (not %s))' % (path, cnd))
         return self.merge(cnd, va, vb)
@@ -923,6 +947,28 @@ class IntWP:
             return c
         raise Unsupported('builtin ' + name)
 
+    def entailed(self, path, fact, secs=8):
+        """True iff `fact` holds under everything assumed so far and `path` (proved by the solver portfolio); only with hints on"""
+        if not self.hints:
+            return False
+        base = PRELUDE + '\n'.join(self.decls) + '\n' + '\n'.join('(assert %s)' % a for a in self.asserts) + '\n' + \
+            '\n'.join('(assert %s)' % a for a in self.assumes) + '\n(assert %s)\n' % path
+        self.hint_n += 1
+        st, _, _, _ = solve_query(base + '(assert (not %s))\n(check-sat)\n' % fact, secs, self.hints, 'hint%d_entailed' % self.hint_n)
+        return st == 'unsat'
+
+    def decide_condition(self, cnd, path, where):
+        """Solver-aided branch pruning (hints on): a branch condition that is constant under the current path is replaced by the
+        literal, after the fact has been registered as an obligation of its own (`value-hint`), so only the reachable arm is executed."""
+        if not self.hints or cnd in ('true', 'false'):
+            return cnd
+        for lit_, fact in (('false', '(not %s)' % cnd), ('true', cnd)):
+            if self.entailed(path, fact):
+                self.oblige('value-hint', path, fact, '%s: branch condition is always %s on this path (derived fact)' % (where, lit_))
+                self.assumes.append('(=> %s %s)' % (path, fact))
+                return lit_
+        return cnd
+
     def value_hint(self, c, path, where):
         """Solver-aided constant propagation (only when the unit asks for it).  If, under everything assumed so far and the current
         path, the fresh constant c can take exactly one value k -- found from a model, then PROVED as the obligation `path => c == k` -- the
@@ -974,7 +1020,7 @@ class IntWP:
                 guard = 'true'
                 if pre.startswith('UF:'):
                     guard = self.define('pre', self.as_bool(self.call_by_mangled(pre[3:], list(vals), path)), 'Bool')
-                g = self.call_by_mangled(post, list(vals) + [res], 'true')
+                g = self.call_by_mangled(post, list(vals) + [res], '(and %s %s)' % (path, guard))
                 self.assumes.append('(=> (and %s %s) %s)' % (path, guard, self.as_bool(g)))
             return res
         pre_term = 'true'
@@ -986,8 +1032,9 @@ class IntWP:
         ft.collect_aliases(d)
         rt = ft.ret_type(d, None, d['type']['qualType'])
         res = self.input_value('res_' + (d.get('name') or 'f'), rt)
-        g = self.call_by_mangled(post, list(vals) + [res], 'true')
-        # the contract holds whenever the call is reached WITH its precondition satisfied
+        # the contract holds whenever the call is reached WITH its precondition satisfied; the postcondition predicate is evaluated
+        # under exactly that condition (its own arithmetic obligations are only meaningful there)
+        g = self.call_by_mangled(post, list(vals) + [res], '(and %s %s)' % (path, pre_term))
         self.assumes.append('(=> (and %s %s) %s)' % (path, pre_term, self.as_bool(g)))
         return res
 
